@@ -91,6 +91,9 @@ func (t Tuple) M__getitem__(key Object) (Object, error) {
 		}
 		if step == 1 {
 			// Return a subslice since tuples are immutable
+			if stop < start {
+				stop = start
+			}
 			return t[start:stop], nil
 		}
 		newTuple := make(Tuple, slicelength)
